@@ -12,6 +12,7 @@
   * `fromData_new`              : the data of a new summary (`0, 0, +Inf, −Inf`) is accepted and gives `new`.
 -/
 import DDS.Model.Summary
+import DDS.Model.Ctor
 import Mathlib.Tactic.Linarith
 
 namespace DDS.Props.C13Stat
@@ -93,5 +94,48 @@ example : fromData (.fin 3) (.fin 6) (.fin 3) (.fin 1) = none := by decide
 example : fromData (.fin 0) (.fin 0) (.fin 1) (.fin 3) = none := by decide
 example : fromData (.fin (-1)) (.fin 0) .pinf .ninf = none :=
   fromData_negative_count (-1) (by decide) _ _ _
+
+/-! ### the constructors of mappings and bins -/
+
+open DDS.Ctor
+
+/-- accuracies outside (0,1) are refused, those inside accepted -/
+theorem alphaRefused_iff (a : Rat) : alphaRefused (.fin a) = true ↔ a ≤ 0 ∨ 1 ≤ a := by
+  simp only [alphaRefused, F64.le, F64.ge, F64.lt, F64.eq, Bool.or_eq_true, decide_eq_true_eq, beq_iff_eq]
+  constructor
+  · rintro ((h | h) | (h | h))
+    · left; linarith
+    · left; linarith
+    · right; linarith
+    · right; linarith
+  · rintro (h | h)
+    · rcases lt_or_eq_of_le h with h | h
+      · exact Or.inl (Or.inl h)
+      · exact Or.inl (Or.inr h)
+    · rcases lt_or_eq_of_le h with h | h
+      · exact Or.inr (Or.inl h)
+      · exact Or.inr (Or.inr h)
+
+theorem alphaRefused_inf : alphaRefused .pinf = true ∧ alphaRefused .ninf = true := by decide
+
+/-- bases not above one are refused -/
+theorem gammaRefused_iff (g : Rat) : gammaRefused (.fin g) = true ↔ g ≤ 1 := by
+  simp only [gammaRefused, F64.le, F64.lt, F64.eq, Bool.or_eq_true, decide_eq_true_eq, beq_iff_eq]
+  constructor
+  · rintro (h | h) <;> linarith
+  · intro h
+    rcases lt_or_eq_of_le h with h | h
+    · exact Or.inl h
+    · exact Or.inr h
+
+theorem gammaRefused_ninf : gammaRefused .ninf = true := by decide
+
+/-- a bin with a negative count is refused, every other finite count accepted -/
+theorem binRefused_iff (c : Rat) : binRefused (.fin c) = true ↔ c < 0 := by
+  simp [binRefused, F64.lt]
+
+example : alphaRefused (.fin (1 / 100)) = false := by decide +kernel
+example : alphaRefused (.fin 1) = true := by decide +kernel
+example : gammaRefused (.fin (102 / 100)) = false := by decide +kernel
 
 end DDS.Props.C13Stat
